@@ -105,45 +105,7 @@ func cmdPsync(s *Server, ss *Session, a [][]byte) resp.Value {
 	return resp.Err("ERR PSYNC not supported by this double")
 }
 
-// ---- streams (minimal; extended by stream.go) ----
-
-type StreamEntry struct {
-	ID     string
-	Fields [][]byte
-}
-
-type Stream struct {
-	Entries []StreamEntry
-	LastID  string
-	Groups  map[string]string
-}
-
-func (st *Stream) Canon() string {
-	var sb strings.Builder
-	sb.WriteString("last=" + st.LastID + ";")
-	for _, e := range st.Entries {
-		sb.WriteString(e.ID + ":")
-		for _, f := range e.Fields {
-			sb.WriteString(Quote(f) + ",")
-		}
-		sb.WriteString(";")
-	}
-	return sb.String()
-}
-
-func cmdXadd(s *Server, ss *Session, a [][]byte) resp.Value { return resp.Err("ERR xadd not modelled") }
-func cmdXsetid(s *Server, ss *Session, a [][]byte) resp.Value {
-	return resp.Err("ERR xsetid not modelled")
-}
-func cmdXgroup(s *Server, ss *Session, a [][]byte) resp.Value {
-	return resp.Err("ERR xgroup not modelled")
-}
-func cmdXclaim(s *Server, ss *Session, a [][]byte) resp.Value {
-	return resp.Err("ERR xclaim not modelled")
-}
-func cmdRestore(s *Server, ss *Session, a [][]byte) resp.Value {
-	return resp.Err("ERR restore not modelled")
-}
+// streams: see stream.go; RESTORE / FUNCTION RESTORE: see restore.go
 
 // KeyIndexes is the double's own key-position table (from the Redis command reference).
 func KeyIndexes(name string, args [][]byte) ([]int, bool) {
